@@ -336,3 +336,15 @@ Section Xml.
     Forall xnormal (flat_map attr_values (norm_xml root)).
   Proof. rewrite norm_xml_factor. split; [apply xslt_free_texts | apply xslt_attr_values]. Qed.
 End Xml.
+
+Lemma xml_shipped : forall root,
+  flat_map (norm_xml protected_names) (norm_xml protected_names root) = norm_xml protected_names root /\
+  flat_map skeleton (norm_xml protected_names root) = skeleton root /\
+  flat_map (texts protected_names true false) (norm_xml protected_names root) =
+    map (replace_char 160 32) (texts protected_names true false root) /\
+  Forall (fun v => v <> [] /\ xnormal v) (flat_map (texts protected_names false false) (norm_xml protected_names root)) /\
+  Forall xnormal (flat_map attr_values (norm_xml protected_names root)).
+Proof.
+  intro root. split; [exact (xml_idem protected_names root)|]. split; [exact (xml_struct protected_names root)|].
+  split; [exact (xml_protected protected_names root)|]. exact (xml_norm protected_names root).
+Qed.
